@@ -56,6 +56,8 @@ pub struct LoopSpec {
 pub struct Opts {
     pub kv: BTreeMap<String, String>,
     pub loops: BTreeMap<usize, LoopSpec>,
+    /// alternative specs for the same ordinal, selected by `kind=<terminal>` (a refactor find -> any keeps a contract)
+    pub loop_alts: BTreeMap<usize, Vec<LoopSpec>>,
 }
 
 impl Opts {
@@ -64,6 +66,17 @@ impl Opts {
             .get("rw")
             .map(|s| s.split(',').any(|x| x == name))
             .unwrap_or(false)
+    }
+    /// the loop spec for ordinal `n` whose `kind=` matches the terminal (or that has no kind)
+    pub fn loop_spec(&self, n: usize, term: &str) -> Option<&LoopSpec> {
+        let mut cands: Vec<&LoopSpec> = vec![];
+        if let Some(v) = self.loop_alts.get(&n) {
+            cands.extend(v.iter());
+        }
+        if let Some(l) = self.loops.get(&n) {
+            cands.push(l);
+        }
+        cands.iter().find(|l| l.opts.get("kind").map(|k| k == term).unwrap_or(false)).or_else(|| cands.iter().find(|l| l.opts.get("kind").is_none())).copied()
     }
     pub fn get(&self, k: &str) -> Option<&str> {
         self.kv.get(k).map(|s| s.as_str())
@@ -787,6 +800,7 @@ fn main() {
             // collect block until //@end
             let mut contract = String::new();
             let mut loops: BTreeMap<usize, LoopSpec> = BTreeMap::new();
+            let mut loop_alts: BTreeMap<usize, Vec<LoopSpec>> = BTreeMap::new();
             let mut cur_loop: Option<usize> = None;
             i += 1;
             while i < lines.len() && lines[i].trim() != "//@end" {
@@ -794,6 +808,9 @@ fn main() {
                 if let Some(lr) = l.trim_start().strip_prefix("//@loop ") {
                     let (p, kv) = parse_kv(lr);
                     let n: usize = p.get(0).and_then(|s| s.parse().ok()).unwrap_or_else(|| die(2, "bad //@loop"));
+                    if let Some(prev) = loops.remove(&n) {
+                        loop_alts.entry(n).or_default().push(prev);
+                    }
                     loops.insert(n, LoopSpec { opts: kv, inv: String::new() });
                     cur_loop = Some(n);
                 } else if let Some(n) = cur_loop {
@@ -811,7 +828,7 @@ fn main() {
             let (sel_part, kv_part) = split_sel(rest);
             let parts: Vec<&str> = sel_part.split("::").map(|s| s.trim()).collect();
             let (_p, kv) = parse_kv(&kv_part);
-            let opts = Opts { kv, loops };
+            let opts = Opts { kv, loops, loop_alts };
             if parts.len() < 3 {
                 die(2, &format!("bad selector `{}`", rest));
             }
@@ -867,7 +884,7 @@ fn main() {
             let (sel_part, kv_part) = split_sel(rest);
             let parts: Vec<&str> = sel_part.split("::").map(|s| s.trim()).collect();
             let (_p, kv) = parse_kv(&kv_part);
-            let opts = Opts { kv, loops: BTreeMap::new() };
+            let opts = Opts { kv, loops: BTreeMap::new(), loop_alts: BTreeMap::new() };
             let file = parts[0].to_string();
             let what: Vec<&str> = parts[1].split_whitespace().collect();
             let fc = load(&mut files, repo, &file);
